@@ -222,9 +222,9 @@ PROPS['C09'] = dict(
 PROPS['C10'] = dict(
     category='other',
     technique='Kani contracts on the unit-level codecs (BOM table and code-unit pairing proved loop-free over all bytes) and on read_line line splitting per encoding (bounded); known finding D6 keyed by a foreign 0x0A byte',
-    level_text='proved (Kani, every byte value): BOM table (from_bom) and pairing of bytes into LE / BE code units with the odd tail dropped. Bounded stand-ins: read_line splits a UTF-8 stream at the first LF byte and a UTF-16LE stream after the first LF unit (<= 4 bytes, every schedule); UTF-16 / UTF-8 lossy decoding of single units (thorough tier: CBMC needs long runs for String building)',
+    level_text='proved (Verus, byte strings of every length): the lossy UTF-8 loop of Encoding::decode clears the buffer first, appends exactly one U+FFFD per invalid sequence std reports (also for a truncated sequence at the end), copies only validated prefixes, slices in range and terminates. proved (Kani, every byte value): BOM table (from_bom) and pairing of bytes into LE / BE code units with the odd tail dropped. Bounded stand-ins: read_line splits a UTF-8 stream at the first LF byte and a UTF-16LE stream after the first LF unit (<= 4 bytes, every schedule); UTF-16 / UTF-8 lossy decoding of single units (thorough tier: CBMC needs long runs for String building)',
     level_note='known finding D6: in UTF-16 input any 0x0A byte that belongs to another code unit (e.g. U+4E0A) splits the line (KNOWN-FINDING line, witness harness c10_read_line_utf16_foreign_0a). Equality of whole decoded maps across the four encodings is not decided',
-    verus=[], kani=['encoding.kc', 'u16_iter.kc', 'decoder.kc'],
+    verus=[dict(unit='enc', tier='quick')], kani=['encoding.kc', 'u16_iter.kc', 'decoder.kc'],
     only_prefix=['enc_', 'u16_', 'c10_'],
     kani_functions=['src/reader/encoding.rs :: impl Encoding :: fn from_bom', 'src/reader/encoding.rs :: impl Encoding :: fn decode', 'src/reader/u16_iter.rs :: DoubleByteIterator / U16LeIterator / U16BeIterator :: fn next',
                     'src/reader/decoder.rs :: impl Decoder :: fn read_line'],
@@ -247,9 +247,9 @@ PROPS['C05'] = dict(
 PROPS['C01'] = dict(
     category='other',
     technique='panic-freedom / unsafe-guard contracts on the mechanisms the property names: Kani loop-free full-domain harnesses where the function is loop-free, bounded harnesses otherwise',
-    level_text='proved (Verus, every length): interpolate_vertices and bezier_subdivide never index outside their slices (given path.len() <= lengths.len(), resp. scratch buffers at least as long as the control-point list). proved (Kani, full domain): numeric limits (parse_with_limits for f64 / f32 / i32: accepted values lie within +-limit and are never NaN, no overflow panic), BOM table, code-unit pairing, the two unsafe NonZeroU32::new_unchecked guards (HitSampleInfo::new, SamplePoint::apply), SliderEventsIter::new. Bounded stand-ins: path-string conversion incl. the raw-pointer split buffer being empty on every exit, index safety of interpolate_vertices / idx_of_dist / calculate_length (path.len() <= lengths.len() invariant), line parsers on templates never panic for any numeric value',
-    level_note='the universally quantified claim over byte strings is whole-program totality and is NOT decided; nor are termination of the adaptive Bezier subdivision and of the tick loop, the 1000-point arc cap, the lossy UTF-8 loop (thorough tier only), re-encoding, the tracing feature set',
-    verus=[dict(unit='c19', tier='quick')], kani=['support.kc', 'parse_number.kc', 'encoding.kc', 'u16_iter.kc', 'hit_samples.kc', 'c15_sample.kc', 'curve.kc', 'c20.kc', 'ho_lines.kc', 'c11_sections.kc'],
+    level_text='proved (Verus, every length): the lossy UTF-8 loop of Encoding::decode slices in range, calls the unsafe from_utf8_unchecked only on a prefix std validated (its safety condition is a Verus precondition) and terminates; interpolate_vertices and bezier_subdivide never index outside their slices (given path.len() <= lengths.len(), resp. scratch buffers at least as long as the control-point list). proved (Kani, full domain): numeric limits (parse_with_limits for f64 / f32 / i32: accepted values lie within +-limit and are never NaN, no overflow panic), BOM table, code-unit pairing, the two unsafe NonZeroU32::new_unchecked guards (HitSampleInfo::new, SamplePoint::apply), SliderEventsIter::new. Bounded stand-ins: path-string conversion incl. the raw-pointer split buffer being empty on every exit, index safety of interpolate_vertices / idx_of_dist / calculate_length (path.len() <= lengths.len() invariant), line parsers on templates never panic for any numeric value',
+    level_note='the universally quantified claim over byte strings is whole-program totality and is NOT decided; nor are termination of the adaptive Bezier subdivision and of the tick loop, the 1000-point arc cap, re-encoding, the tracing feature set',
+    verus=[dict(unit='c19', tier='quick'), dict(unit='enc', tier='quick')], kani=['support.kc', 'parse_number.kc', 'encoding.kc', 'u16_iter.kc', 'hit_samples.kc', 'c15_sample.kc', 'curve.kc', 'c20.kc', 'ho_lines.kc', 'c11_sections.kc'],
     only_prefix=['pn_', 'enc_from_bom', 'enc_decode', 'u16_', 'hs_hit_sample_info_new', 'c15_sample_point_apply', 'c16_calculate_length_2', 'c19_interpolate', 'c19_idx', 'c20_new_clears', 'ho_path_one', 'ho_line_5', 'c11_event_video_non_ascii', 'c11_difficulty_slider_multiplier', 'c11_color_five'],
     kani_functions=['src/util/parse_number.rs :: impl ParseNumber for f64 / f32 / i32', 'src/reader/encoding.rs :: Encoding::from_bom', 'src/reader/u16_iter.rs :: iterators',
                     'src/section/hit_objects/hit_samples.rs :: HitSampleInfo::new (unsafe)', 'src/section/timing_points/control_points/sample.rs :: SamplePoint::apply (unsafe)',
